@@ -11,14 +11,83 @@ BOUND = ("networks with <= 6 variables (exhaustive 1-variable, sampled 2-variabl
          "variables; targets: minimal trap spaces, minimal trap spaces with variables dropped (not trap spaces), nodes of the full diagram, seeded "
          "random subspaces; both strategies, max_drivers_per_succession_node in {None,0,1,2}, seeded forbidden sets, skip_feedforward_successions "
          "on/off; on a fresh diagram or after a seeded history of <= 3 calls (plain limited expansion, block/scc shortcuts, skipping); every reported "
-         "override is simulated in the explicitly overridden network from every state of the previous trap space")
+         "override is simulated in the explicitly overridden network from every state of the previous trap space; plus multi-path networks "
+         "(latch DAGs with <= 7 variables) after depth-first histories, where a node gets a parent created later; coupled bistable pairs "
+         "(the same stable motif early in one succession and late in another); networks of depth >= 3 that are already partly expanded "
+         "(limited searches, single expansions, an earlier control query for a coarser target) when the query arrives")
 RULE = "non-trivial = at least one successful intervention with at least one step was returned"
 CASE_TIMEOUT = 60.0
 
 PRE_OPS = families.PLAIN_OPS + ["min_skip", "skip", "skip_remaining", "seeds"]
 
 
+def _multipath_cases(seed, tier):
+    """shape added after the seeded-change review: diagrams in which a node is reached again from a node created LATER (multi-path nets,
+    depth-first histories), so that anything computed by a sweep over node ids in creation order is wrong; targets low in the diagram"""
+    for name, bnet in families.multipath_nets(seed, tier):
+        names = families.variables(bnet)
+        if len(names) > 7:
+            continue
+        rng = random.Random(f"{seed}-{name}-c06mp")
+        hists = families.depth_first_histories(rng)
+        for rnd in range(3):
+            target = rng.choice([["mintrap", rng.randrange(8)], ["node", rng.randrange(16)], ["mintrap_drop", rng.randrange(8), 2]])
+            yield {"net": "multipath:" + name, "bnet": bnet, "target": target, "strategy": rng.choice(["internal", "internal", "all"]),
+                   "max_drivers": rng.choice([1, 2]), "forbidden": [], "skip_ff": False, "history": rng.choice(hists)}
+
+
+def _coupled_switch_cases(seed, tier):
+    """shape added after the seeded-change review: two or three bistable pairs whose self-sustaining condition depends on a literal of another
+    pair, so that the SAME stable motif occurs early in one succession and late in another (what has to be fixed to force it differs with what
+    the earlier steps fixed); targets: every minimal trap space; both strategies"""
+    import itertools
+    nets = [("coupled_demo", "A, B\nB, A | (B & !C)\nC, D\nD, C & (D | !A)")]
+    lits = ["{x}", "!{x}"]
+    for la, lb, shape in itertools.product(lits, lits, range(3)):
+        a, b = la.format(x="C"), lb.format(x="A")
+        if shape == 0:
+            txt = f"A, B\nB, A | (B & {a})\nC, D\nD, C & (D | {b})"
+        elif shape == 1:
+            txt = f"A, B & (A | {a})\nB, A\nC, D | (C & {b})\nD, C"
+        else:
+            txt = f"A, B\nB, A | (B & {a})\nC, D\nD, C & (D | {b})\nE, F\nF, E | (F & {la.format(x='D')})"
+        nets.append((f"coupled_{shape}_{len(nets)}", txt))
+    for name, bnet in nets:
+        names = families.variables(bnet)
+        for k in range(8):
+            for strat in ("internal", "all"):
+                yield {"net": "coupled:" + name, "bnet": families.norm(bnet) if hasattr(families, "norm") else bnet, "target": ["mintrap", k], "strategy": strat,
+                       "max_drivers": None if strat == "internal" else 2, "forbidden": [], "skip_ff": False, "history": []}
+
+
+def _partially_expanded_cases(seed, tier):
+    """shape added after the seeded-change review: the diagram is already partly expanded (a level-limited search, single node expansions, an
+    earlier control query for a COARSER target) when the control query for a fine target arrives; expand_to_target then has to descend below
+    nodes that are already expanded; networks of depth >= 3; targets: every minimal trap space"""
+    i = 0
+    for name, bnet in families.deep_nets(seed, tier):
+        names = families.variables(bnet)
+        if len(names) > 7:
+            continue
+        i += 1
+        rng = random.Random(f"{seed}-{name}-c06pe")
+        coarse = {names[0]: rng.choice([0, 1]), names[1 % len(names)]: rng.choice([0, 1])}
+        coarse1 = {names[0]: 0}
+        hists = [[["bfs", None, 0, None]], [["bfs", None, 1, None]], [["succ", 0], ["succ", 1]], [["succ", 0], ["succ", -1]],
+                 [["target", coarse, None]], [["target", coarse1, None]],
+                 [["control", coarse, "internal", None, [], True, False]], [["control", coarse1, "all", 1, [], False, False]],
+                 [["dfs", None, 1, None]]]
+        for k in range(4):
+            yield {"net": "partial:" + name, "bnet": bnet, "target": ["mintrap", rng.randrange(8)], "strategy": rng.choice(["internal", "internal", "all"]),
+                   "max_drivers": rng.choice([None, 1, 2]), "forbidden": [], "skip_ff": False, "history": hists[(i + k * 3) % len(hists)]}
+
+
 def cases(seed, tier):
+    yield from families.interleave((_coupled_switch_cases(seed, tier), 1), (_multipath_cases(seed, tier), 1), (_partially_expanded_cases(seed, tier), 2),
+                                   (_general_cases(seed, tier), 12))
+
+
+def _general_cases(seed, tier):
     for name, bnet in families.network_family(seed, tier, hand_max_vars=7):
         names = families.variables(bnet)
         for rnd in range(4 if tier == "quick" else 10):
